@@ -59,11 +59,11 @@ Qed.
 (* ------------------------------------------------------------------------------------- *)
 (* one column                                                                              *)
 
-Definition cstep (c : column) := cell_step (cmrg c) (czero c) (cmerges c).
+Definition cstep (c : column) := cell_step (cmrg c) (czero c) (cmerges c) (ccast c).
 Definition rstep (c : column) := rewrite_op (cmrg c) (czero c) (cmerges c).
 
 Lemma col_step_params c o :
-  cmerges (fst (col_step c o)) = cmerges c ∧ cmrg (fst (col_step c o)) = cmrg c ∧ czero (fst (col_step c o)) = czero c.
+  cmerges (fst (col_step c o)) = cmerges c ∧ cmrg (fst (col_step c o)) = cmrg c ∧ czero (fst (col_step c o)) = czero c ∧ ccast (fst (col_step c o)) = ccast c.
 Proof. done. Qed.
 
 Lemma col_step_cells c o i :
@@ -71,19 +71,19 @@ Lemma col_step_cells c o i :
 Proof.
   unfold col_step, cstep; cbn [fst set_cells cells].
   destruct (decide (ooff o = i)) as [<-|NE].
-  - destruct (cell_step _ _ _ _ o); [by rewrite lookup_insert|by rewrite lookup_delete].
-  - destruct (cell_step _ _ _ _ o); [by rewrite lookup_insert_ne|by rewrite lookup_delete_ne].
+  - destruct (cell_step _ _ _ _ _ o); [by rewrite lookup_insert|by rewrite lookup_delete].
+  - destruct (cell_step _ _ _ _ _ o); [by rewrite lookup_insert_ne|by rewrite lookup_delete_ne].
 Qed.
 
 Lemma col_apply_params c ops :
-  cmerges (fst (col_apply c ops)) = cmerges c ∧ cmrg (fst (col_apply c ops)) = cmrg c ∧ czero (fst (col_apply c ops)) = czero c.
+  cmerges (fst (col_apply c ops)) = cmerges c ∧ cmrg (fst (col_apply c ops)) = cmrg c ∧ czero (fst (col_apply c ops)) = czero c ∧ ccast (fst (col_apply c ops)) = ccast c.
 Proof.
   revert c; induction ops as [|o r IH]; intro c; [done|].
   cbn [col_apply]. destruct (col_step c o) as [c1 o'] eqn:E1.
   destruct (col_apply c1 r) as [c2 r'] eqn:E2. cbn [fst].
   specialize (IH c1). rewrite E2 in IH. cbn [fst] in IH.
   pose proof (col_step_params c o) as P. rewrite E1 in P. cbn [fst] in P.
-  destruct IH as (-> & -> & ->). exact P.
+  destruct IH as (-> & -> & -> & ->). exact P.
 Qed.
 
 (* L1: a column after a list of ops, looked up at one offset, is the fold of that offset's ops *)
@@ -95,8 +95,8 @@ Proof.
   destruct (col_apply c1 r) as [c2 r'] eqn:E2. cbn [fst].
   specialize (IH c1). rewrite E2 in IH. cbn [fst] in IH. rewrite IH.
   pose proof (col_step_cells c o i) as C. rewrite E1 in C. cbn [fst] in C.
-  pose proof (col_step_params c o) as P. rewrite E1 in P. cbn [fst] in P. destruct P as (P1 & P2 & P3).
-  assert (Hs : cstep c1 = cstep c) by (unfold cstep; by rewrite P1, P2, P3). rewrite Hs, C.
+  pose proof (col_step_params c o) as P. rewrite E1 in P. cbn [fst] in P. destruct P as (P1 & P2 & P3 & P4).
+  assert (Hs : cstep c1 = cstep c) by (unfold cstep; by rewrite P1, P2, P3, P4). rewrite Hs, C.
   destruct (decide (ooff o = i)).
   - by rewrite filter_cons_True.
   - by rewrite filter_cons_False.
@@ -117,11 +117,11 @@ Proof.
   destruct (col_apply c1 r) as [c2 r'] eqn:E2. cbn [snd].
   specialize (IH c1). rewrite E2 in IH. cbn [snd] in IH.
   pose proof (col_step_cells c o i) as C. rewrite E1 in C. cbn [fst] in C.
-  pose proof (col_step_params c o) as P. rewrite E1 in P. cbn [fst] in P. destruct P as (P1 & P2 & P3).
+  pose proof (col_step_params c o) as P. rewrite E1 in P. cbn [fst] in P. destruct P as (P1 & P2 & P3 & P4).
   assert (Ho' : o' = rstep c (cells c !! ooff o) o) by (unfold col_step in E1; by injection E1 as _ <-).
   assert (Hrw : ∀ v l, rw_list c1 v l = rw_list c v l).
   { intros v l; revert v; induction l as [|x l IHl]; intro v; [done|]. cbn.
-    unfold rstep, cstep. rewrite P1, P2, P3. f_equal. apply IHl. }
+    unfold rstep, cstep. rewrite P1, P2, P3, P4. f_equal. apply IHl. }
   destruct (decide (ooff o = i)) as [E|NE].
   - rewrite (filter_cons_True _ o r) by done.
     rewrite filter_cons_True by (by rewrite Ho', rstep_off).
@@ -211,7 +211,7 @@ Definition cell_final (c : column) (v : option value) (ops marks : list op) : op
 Lemma commit_block_cols s t b c col :
   cols s !! c = Some col →
   ∃ col', cols (commit_block s t b) !! c = Some col' ∧
-    cmerges col' = cmerges col ∧ cmrg col' = cmrg col ∧ czero col' = czero col ∧
+    cmerges col' = cmerges col ∧ cmrg col' = cmrg col ∧ czero col' = czero col ∧ ccast col' = ccast col ∧
     ∀ i, cells col' !! i =
       if decide (blk i = b)
       then cell_final col (cells col !! i) (filter (λ o, ooff o = i) (buf t c)) (filter (λ o, ooff o = i) (trow t))
@@ -223,11 +223,11 @@ Proof.
   exists (fst (col_apply (fst (col_apply col ops)) mops)).
   split.
   { rewrite !lookup_fmap, map_lookup_imap, Hc. done. }
-  destruct (col_apply_params col ops) as (A1 & A2 & A3).
-  destruct (col_apply_params (fst (col_apply col ops)) mops) as (B1 & B2 & B3).
-  rewrite B1, B2, B3, A1, A2, A3. do 3 (split; [done|]).
+  destruct (col_apply_params col ops) as (A1 & A2 & A3 & A4).
+  destruct (col_apply_params (fst (col_apply col ops)) mops) as (B1 & B2 & B3 & B4).
+  rewrite B1, B2, B3, B4, A1, A2, A3, A4. do 4 (split; [done|]).
   intro i. rewrite col_apply_cells, col_apply_cells.
-  assert (Hs : cstep (fst (col_apply col ops)) = cstep col) by (unfold cstep; by rewrite A1, A2, A3).
+  assert (Hs : cstep (fst (col_apply col ops)) = cstep col) by (unfold cstep; by rewrite A1, A2, A3, A4).
   rewrite Hs. unfold ops, mops. rewrite !filter_off_blk.
   destruct (decide (blk i = b)); done.
 Qed.
@@ -244,9 +244,9 @@ Proof.
   eexists. split.
   { rewrite !lookup_fmap, map_lookup_imap, Hc. done. }
   intro i. rewrite col_apply_cells, col_apply_cells.
-  destruct (col_apply_params col (filter (λ o, in_blk b o = true) (buf t c))) as (A1 & A2 & A3).
+  destruct (col_apply_params col (filter (λ o, in_blk b o = true) (buf t c))) as (A1 & A2 & A3 & A4).
   assert (Hs : cstep (fst (col_apply col (filter (λ o, in_blk b o = true) (buf t c)))) = cstep col)
-    by (unfold cstep; by rewrite A1, A2, A3).
+    by (unfold cstep; by rewrite A1, A2, A3, A4).
   by rewrite Hs.
 Qed.
 
@@ -256,22 +256,22 @@ Proof. intro Hc. unfold commit_block; cbn [cols]. by rewrite !lookup_fmap, map_l
 Lemma commit_blocks_cols s t bs c col :
   NoDup bs → cols s !! c = Some col →
   ∃ col', cols (commit_blocks s t bs) !! c = Some col' ∧
-    cmerges col' = cmerges col ∧ cmrg col' = cmrg col ∧ czero col' = czero col ∧
+    cmerges col' = cmerges col ∧ cmrg col' = cmrg col ∧ czero col' = czero col ∧ ccast col' = ccast col ∧
     ∀ i, cells col' !! i =
       if decide (blk i ∈ bs)
       then cell_final col (cells col !! i) (filter (λ o, ooff o = i) (buf t c)) (filter (λ o, ooff o = i) (trow t))
       else cells col !! i.
 Proof.
   revert s col. induction bs as [|b bs IH]; intros s col ND Hc.
-  - exists col. do 4 (split; [done|]). intro i. rewrite decide_False; [done|set_solver].
+  - exists col. do 5 (split; [done|]). intro i. rewrite decide_False; [done|set_solver].
   - apply NoDup_cons in ND as [Hnb ND].
-    destruct (commit_block_cols s t b c col Hc) as (c1 & H1 & M1 & M2 & M3 & C1).
-    destruct (IH (commit_block s t b) c1 ND H1) as (c2 & H2 & N1 & N2 & N3 & C2).
+    destruct (commit_block_cols s t b c col Hc) as (c1 & H1 & M1 & M2 & M3 & M4 & C1).
+    destruct (IH (commit_block s t b) c1 ND H1) as (c2 & H2 & N1 & N2 & N3 & N4 & C2).
     exists c2. cbn [commit_blocks foldl]. split; [exact H2|].
-    rewrite N1, N2, N3. do 3 (split; [done|]).
+    rewrite N1, N2, N3, N4. do 4 (split; [done|]).
     intro i. rewrite C2, C1.
     assert (Hcf : ∀ v a m, cell_final c1 v a m = cell_final col v a m).
-    { intros. unfold cell_final, cstep. by rewrite M1, M2, M3. }
+    { intros. unfold cell_final, cstep. by rewrite M1, M2, M3, M4. }
     destruct (decide (blk i ∈ bs)) as [Hin|Hnin].
     + rewrite decide_False by (intros E; rewrite E in Hin; done). rewrite decide_True by set_solver. apply Hcf.
     + destruct (decide (blk i = b)) as [E|NE].
@@ -304,7 +304,7 @@ Theorem commit_read s t c col i :
     cell_final col (read s c i) (filter (λ o, ooff o = i) (buf t c)) (filter (λ o, ooff o = i) (trow t)).
 Proof.
   intro Hc. destruct (dirty_blocks_spec t) as [ND Hd].
-  destruct (commit_blocks_cols s t (dirty_blocks t) c col ND Hc) as (col' & H' & _ & _ & _ & C).
+  destruct (commit_blocks_cols s t (dirty_blocks t) c col ND Hc) as (col' & H' & _ & _ & _ & _ & C).
   unfold read, commit. rewrite H', Hc, C.
   destruct (decide (blk i ∈ dirty_blocks t)) as [Hin|Hnin]; [done|].
   (* untouched block: both filtered lists are empty *)
@@ -327,17 +327,50 @@ Qed.
 (* columns keep their parameters across a commit *)
 Lemma commit_col_params s t c col :
   cols s !! c = Some col →
-  ∃ col', cols (commit s t) !! c = Some col' ∧ cmerges col' = cmerges col ∧ cmrg col' = cmrg col ∧ czero col' = czero col.
+  ∃ col', cols (commit s t) !! c = Some col' ∧ cmerges col' = cmerges col ∧ cmrg col' = cmrg col ∧ czero col' = czero col ∧ ccast col' = ccast col.
 Proof.
   intro Hc. destruct (dirty_blocks_spec t) as [ND _].
-  destruct (commit_blocks_cols s t (dirty_blocks t) c col ND Hc) as (col' & H' & A & B & C & _).
+  destruct (commit_blocks_cols s t (dirty_blocks t) c col ND Hc) as (col' & H' & A & B & C & D & _).
   exists col'. done.
 Qed.
 
 (* the parameters are all a cell's evolution depends on *)
 Lemma cell_final_params c1 c2 v a m :
-  cmerges c1 = cmerges c2 → cmrg c1 = cmrg c2 → czero c1 = czero c2 → cell_final c1 v a m = cell_final c2 v a m.
-Proof. intros A B C. unfold cell_final, cstep. by rewrite A, B, C. Qed.
+  cmerges c1 = cmerges c2 → cmrg c1 = cmrg c2 → czero c1 = czero c2 → ccast c1 = ccast c2 → cell_final c1 v a m = cell_final c2 v a m.
+Proof. intros A B C D. unfold cell_final, cstep. by rewrite A, B, C, D. Qed.
+
+(* what a column stores is a fixed point of its cast (a widened value is not widened again), so
+   that writing a stored value back - a snapshot, a replayed commit - stores the same value *)
+Definition cast_idem (c : column) : Prop := ∀ v, ccast c (ccast c v) = ccast c v.
+Definition CastFixed (s : coll) : Prop :=
+  ∀ c col, cols s !! c = Some col → cast_idem col ∧ ∀ i v, cells col !! i = Some v → ccast col v = v.
+
+Lemma fold_cstep_fixed c v l :
+  cast_idem c → (∀ x, v = Some x → ccast c x = x) → ∀ x, foldl (cstep c) v l = Some x → ccast c x = x.
+Proof.
+  intro Hi. revert v; induction l as [|o r IH]; intros v Hv x Hx; [by apply Hv|].
+  cbn [foldl] in Hx. eapply IH; [|exact Hx].
+  intros y Hy. unfold cstep, cell_step in Hy. destruct (ok o).
+  all: try (by apply Hv). all: try done. all: try (injection Hy as <-; apply Hi).
+  destruct (cmerges c); [injection Hy as <-; apply Hi|by apply Hv].
+Qed.
+
+Theorem commit_cast_fixed s t : CastFixed s → CastFixed (commit s t).
+Proof.
+  intros H c col' Hc'. destruct (cols s !! c) as [col|] eqn:Hc.
+  2:{ pose proof (commit_read_none s t c 0 Hc) as R. unfold read in R.
+      assert (G : ∀ bs s0, cols s0 !! c = None → cols (commit_blocks s0 t bs) !! c = None).
+      { induction bs as [|b bs IH]; intros s0 H0; [done|]. cbn. apply IH. by apply commit_block_cols_none. }
+      unfold commit in Hc'. rewrite (G _ _ Hc) in Hc'. done. }
+  destruct (H c col Hc) as [Hi Hf].
+  destruct (dirty_blocks_spec t) as [ND _].
+  destruct (commit_blocks_cols s t (dirty_blocks t) c col ND Hc) as (c2 & H2 & _ & _ & _ & Hk & Hcells).
+  unfold commit in Hc'. rewrite Hc' in H2. injection H2 as <-.
+  split; [intro v; rewrite !Hk; apply Hi|].
+  intros i v Hv. rewrite Hk. rewrite Hcells in Hv. destruct (decide (blk i ∈ dirty_blocks t)); [|by eapply Hf].
+  unfold cell_final in Hv. eapply fold_cstep_fixed; [exact Hi| |exact Hv].
+  intros y Hy. eapply fold_cstep_fixed; [exact Hi| |exact Hy]. intros z Hz. by eapply Hf.
+Qed.
 
 (* C01 over a whole history of committed transactions *)
 Fixpoint hist_cell (col : column) (v : option value) (c i : N) (ts : list txn) : option value :=
@@ -351,7 +384,7 @@ Theorem history_read s ts c col i :
 Proof.
   revert s col. induction ts as [|t r IH]; intros s col Hc; [done|].
   cbn [foldl hist_cell].
-  destruct (commit_col_params s t c col Hc) as (col' & H' & A & B & C).
+  destruct (commit_col_params s t c col Hc) as (col' & H' & A & B & C & D).
   rewrite (IH _ col' H'), (commit_read s t c col i Hc).
   clear IH. generalize (cell_final col (read s c i) (filter (λ o, ooff o = i) (buf t c)) (filter (λ o, ooff o = i) (trow t))).
   induction r as [|t2 r IHr]; intro v; [done|]. cbn [hist_cell].
@@ -483,8 +516,14 @@ Qed.
 (* ------------------------------------------------------------------------------------- *)
 (* C03: a bitmap index equals its predicate over the current values                        *)
 
+(* [cast_invariant]: the predicate does not tell a put value from its widened form (it reads the
+   entry with the same Reader.Int / Reader.Uint the column uses); trivially true of every column
+   whose cast is the identity, i.e. all but int / uint columns fed narrow values *)
+Definition cast_invariant (col : column) (rule : N → value → bool) : Prop :=
+  ∀ i v, rule i (ccast col v) = rule i v.
 Definition IdxOK (s : coll) : Prop :=
   ∀ e rule bits col, e ∈ comps s → xstate e = XIndex rule bits → cols s !! xtarget e = Some col →
+    cast_invariant col rule →
     ∀ i, i ∈ bits ↔ ∃ v, cells col !! i = Some v ∧ rule i v = true.
 
 Definition bit_step (rule : N → value → bool) (i : N) (b : bool) (o : op) : bool :=
@@ -518,13 +557,14 @@ Definition idx_rel (rule : N → value → bool) (i : N) (v : option value) (b :
   b = match v with Some x => rule i x | None => false end.
 
 Lemma idx_rel_rw c rule i v b l :
+  cast_invariant c rule →
   idx_rel rule i v b → idx_rel rule i (foldl (cstep c) v l) (foldl (bit_step rule i) b (rw_list c v l)).
 Proof.
-  revert v b; induction l as [|o r IH]; intros v b R; [done|].
+  intro Hci. revert v b; induction l as [|o r IH]; intros v b R; [done|].
   cbn [rw_list foldl]. apply IH.
   unfold idx_rel, cstep, rstep, bit_step, cell_step, rewrite_op in *.
-  destruct (ok o) eqn:K; try (rewrite K; done).
-  destruct (cmerges c); [done|]. rewrite K. done.
+  destruct (ok o) eqn:K; try (rewrite K; done); try (rewrite K; by rewrite Hci).
+  destruct (cmerges c); [cbn [ok oval]; by rewrite Hci|]. rewrite K. done.
 Qed.
 
 Lemma rw_list_no_merge c v l : no_merge l → rw_list c v l = l.
@@ -560,7 +600,7 @@ Qed.
 
 Theorem commit_block_idx_ok s t b : wf_row t → IdxOK s → IdxOK (commit_block s t b).
 Proof.
-  intros Hr Inv e' rule bits' col' He' Hx' Hc' i.
+  intros Hr Inv e' rule bits' col' He' Hx' Hc' Hci' i.
   (* the entry comes from an entry of s *)
   unfold commit_block in He'; cbn [comps] in He'.
   rewrite <- list_fmap_compose in He'. apply elem_of_list_fmap in He' as (e & -> & He).
@@ -572,6 +612,9 @@ Proof.
   2:{ rewrite (commit_block_cols_none s t b _ Hc) in Hc'. done. }
   destruct (commit_block_cells2 s t b _ col Hc) as (c2 & Hc2 & Hcells).
   rewrite Hc' in Hc2. injection Hc2 as <-. specialize (Hcells i). fold ops mops in Hcells.
+  assert (Hci : ∀ r, cast_invariant col' r → cast_invariant col r).
+  { destruct (commit_block_cols s t b _ col Hc) as (c3 & Hc3 & _ & _ & _ & Hk & _).
+    rewrite Hc' in Hc3. injection Hc3 as <-. intros r H j v. rewrite <- Hk. apply H. }
   (* the index state: an index before, processed with the rewritten ops and then the markers *)
   destruct (xstate e) as [rule0 bits0| |] eqn:Hx.
   2:{ exfalso. revert Hx'. clear. generalize (default [] (snd <$> map_imap (λ c col, Some (col_apply col (filter (λ o, in_blk b o = true) (buf t c)))) (cols s) !! xtarget e)).
@@ -594,7 +637,8 @@ Proof.
   assert (Hnm : no_merge (filter (λ o, ooff o = i) mops)).
   { apply no_merge_filter. unfold mops. apply no_merge_filter. by apply wf_row_no_merge. }
   rewrite <- (rw_list_no_merge col (foldl (cstep col) (cells col !! i) (filter (λ o, ooff o = i) ops)) _ Hnm) at 2.
-  apply idx_rel_rw, idx_rel_rw. apply idx_rel_iff. exact (Inv e rule0 bits0 col He Hx Hc i).
+  apply idx_rel_rw; [by apply Hci|]. apply idx_rel_rw; [by apply Hci|].
+  apply idx_rel_iff. exact (Inv e rule0 bits0 col He Hx Hc (Hci _ Hci') i).
 Qed.
 
 Theorem commit_idx_ok s t : wf_row t → IdxOK s → IdxOK (commit s t).
@@ -607,7 +651,7 @@ Qed.
 Theorem create_index_ok s id tg rule bits0 :
   IdxOK s → IdxOK (create_computed s id tg (XIndex rule bits0)).
 Proof.
-  intros Inv e r bits col He Hx Hc i. unfold create_computed in *.
+  intros Inv e r bits col He Hx Hc Hci i. unfold create_computed in *.
   destruct (cols s !! tg) as [ct|] eqn:Ht; [|by eapply Inv].
   cbn [comps cols] in *. apply elem_of_app in He as [He|He]; [by eapply Inv|].
   apply elem_of_list_singleton in He. subst e. cbn [xstate xtarget build_computed] in *.
